@@ -32,10 +32,38 @@ class Infra(Exception):
     """tool / extraction problem: exit 2, never a VIOLATION"""
 
 
+class GroupResult:
+    def __init__(self, returncode, stdout, stderr):
+        self.returncode, self.stdout, self.stderr = returncode, stdout, stderr
+
+
+def run_group(cmd, cwd=None, timeout=None, env=None):
+    """subprocess.run(capture_output, text) in its own session: on a time-out the WHOLE process group is killed
+    (cargo test / cargo kani / verus leave their test binary, cbmc or z3 child spinning otherwise), then TimeoutExpired is raised"""
+    import signal
+    p = subprocess.Popen(cmd, cwd=cwd, stdout=subprocess.PIPE, stderr=subprocess.PIPE, text=True, env=env, start_new_session=True)
+    try:
+        so, se = p.communicate(timeout=timeout)
+    except subprocess.TimeoutExpired:
+        try:
+            os.killpg(p.pid, signal.SIGKILL)
+        except ProcessLookupError:
+            pass
+        so, se = p.communicate()
+        raise subprocess.TimeoutExpired(cmd, timeout, output=so, stderr=se)
+    except BaseException:
+        try:
+            os.killpg(p.pid, signal.SIGKILL)
+        except ProcessLookupError:
+            pass
+        raise
+    return GroupResult(p.returncode, so, se)
+
+
 def sh(cmd, cwd=None, timeout=None, env=None):
     t0 = time.time()
     try:
-        p = subprocess.run(cmd, cwd=cwd, capture_output=True, text=True, timeout=timeout, env=env)
+        p = run_group(cmd, cwd=cwd, timeout=timeout, env=env)
         return p.returncode, p.stdout, p.stderr, time.time() - t0
     except subprocess.TimeoutExpired as e:
         return 124, (e.stdout or b"").decode() if isinstance(e.stdout, bytes) else (e.stdout or ""), "TIMEOUT", time.time() - t0
